@@ -13,7 +13,7 @@ PROPERTY = "C10"
 LEVEL = "exploration"
 NEED_EXT = True
 REQUIRED = ["fit", "path.chain", "path.routing", "proba.terminal", "predict.threshold", "indices", "leaves",
-            "depth"]
+            "depth", "refit.structure"]
 RULE = ("binary data classes separable / xor / rings / imbalanced / duplicates / one feature x label sets {0,1}, "
         "{-1,1}, {3,7}, strings, floats x max_depth 1-6 x min_samples_leaf x min_samples_split x fit_improve_algo x "
         "gamma x p1p2 x base estimators x weights x DataFrame; queried on the training rows (exact ties after "
@@ -74,6 +74,8 @@ def run_case(case, ctx):
     from sklearn.linear_model import LogisticRegression
     from sklearn.tree import DecisionTreeClassifier
     from sklearn.naive_bayes import GaussianNB
+    from sklearn.svm import SVC
+    from sklearn.linear_model import SGDClassifier
     from mlinsights.mlmodel import DecisionTreeLogisticRegression
     sub = case["sub"]
     rng = numpy.random.RandomState(sub % (2 ** 31))
@@ -83,9 +85,9 @@ def run_case(case, ctx):
     y = numpy.array(lvals, dtype=object if lname == "str" else None)[yi]
     if lname == "str":
         y = y.astype(str)
-    base = ["logreg", "logreg", "logreg", "tree", "gnb"][rng.randint(5)]
+    base = ["logreg", "logreg", "logreg", "tree", "gnb", "svc", "sgd"][rng.randint(7)]
     algo = [None, "none", "auto", "intercept_sort", "intercept_sort_always"][rng.randint(5)]
-    if base != "logreg" and algo == "intercept_sort_always":
+    if base not in ("logreg", "sgd") and algo == "intercept_sort_always":
         algo = "auto"
     params = dict(max_depth=int(rng.randint(1, 7)), min_samples_leaf=int([1, 2, 5, 10, 20][rng.randint(5)]),
                   min_samples_split=int([2, 5, 15, 40][rng.randint(4)]), fit_improve_algo=algo,
@@ -94,12 +96,15 @@ def run_case(case, ctx):
     frame = rng.rand() < 0.15
     est = {"logreg": lambda: LogisticRegression(max_iter=500),
            "tree": lambda: DecisionTreeClassifier(max_depth=2, random_state=0),
-           "gnb": lambda: GaussianNB()}[base]()
+           "gnb": lambda: GaussianNB(),
+           "svc": lambda: SVC(probability=True, random_state=0, kernel=["rbf", "linear"][sub % 2]),
+           "sgd": lambda: SGDClassifier(loss="log_loss", random_state=0, max_iter=300)}[base]()
     cfg = dict(params, data=kind, labels=lname, base=base, weighted=bool(weighted), frame=bool(frame),
                n=int(X.shape[0]), d=int(X.shape[1]), sub=sub)
     ctx.cls("data=" + kind)
     ctx.cls("labels=" + lname)
     ctx.cls("algo=%s" % algo)
+    ctx.cls("base=" + base)
     K = "C10/"
     m = DecisionTreeLogisticRegression(estimator=est, **params)
     w = rng.rand(len(X)) + 0.5 if weighted else None
@@ -247,6 +252,44 @@ def run_case(case, ctx):
         if not set(pred.tolist()) <= set(classes):
             ctx.violation(K + "predict/label-outside-classes", "predict returned %r" % (sorted(set(pred.tolist())),),
                           cfg=cfg)
+    if not case.get("_refit"):
+        # history on one object: query the structure, refit with the two labels swapped (a mirrored tree, often
+        # with the same n_nodes_), and run every clause again on the refitted object
+        try:
+            m.get_leaves_index()
+            m.decision_path(X[:3])
+            y2 = numpy.where(y == classes[0], classes[1], classes[0])
+            m.fit(Xin, y2) if w is None else m.fit(Xin, y2, sample_weight=w)
+            nodes2 = walk(m.tree_)
+            term2 = sorted(nd.index for nd, _ in nodes2 if nd.above is None or nd.below is None)
+            ctx.hit("refit.structure")
+            got2 = [int(i) for i in m.get_leaves_index()]
+            if got2 != term2:
+                ctx.violation(K + "leaves/get_leaves_index/after-refit", "after refitting the same object "
+                              "get_leaves_index=%r, terminal nodes=%r" % (got2, term2), cfg=cfg)
+            if m.tree_depth_ != max(dp for _, dp in nodes2):
+                ctx.violation(K + "depth/tree_depth-wrong/after-refit", "tree_depth_ stale after refit", cfg=cfg)
+            idx2 = [nd.index for nd, _ in nodes2]
+            if max(idx2) >= m.n_nodes_:
+                ctx.violation(K + "indices/not-below-n_nodes/after-refit", "n_nodes_ stale after refit", cfg=cfg)
+            Pn = numpy.asarray(m.predict_proba(X[:10]))
+            dp = numpy.asarray(m.decision_path(X[:10]).todense())
+            by2 = {nd.index: nd for nd, _ in nodes2}
+            dep2 = {nd.index: d_ for nd, d_ in nodes2}
+            for i in range(min(10, len(X))):
+                marked = set(numpy.where(dp[i] != 0)[0].tolist())
+                if not marked <= set(by2):
+                    ctx.violation(K + "path/unknown-node/after-refit", "decision_path after refit marks a column "
+                                  "that is not a node of the new tree", cfg=cfg)
+                    break
+                t = max(marked, key=lambda j: dep2[j])
+                pt = numpy.asarray(by2[t].estimator.predict_proba(X[:10]))[i]
+                if numpy.isfinite(pt).all() and not numpy.allclose(Pn[i], pt, atol=TOL, rtol=0):
+                    ctx.violation(K + "proba/not-terminal-node/after-refit", "after refit predict_proba is not the "
+                                  "terminal node's probabilities", cfg=cfg)
+                    break
+        except Exception as e:
+            ctx.violation(K + "refit/raised/%s" % type(e).__name__, "refit history raised: %s" % str(e)[:150], cfg=cfg)
     if len(nodes) >= 3:
         ctx.nontriv(cfg)
     ctx.sample({"cfg": cfg, "n_nodes_": int(m.n_nodes_), "node_indices": sorted(idx), "depth": int(real_depth)})
